@@ -296,6 +296,7 @@ def run(ctx, search=False):
     finally:
         uninstall()
     real_pool_histories(ctx)
+    ambient_probe(ctx)
 
 
 def real_pool_histories(ctx):
@@ -352,6 +353,68 @@ def real_pool_histories(ctx):
                 ctx.fail('parallel_map(f, xs) != [f(x) for x in xs] after earlier calls in the same process', dict(case, call_index=k), out); break
             if shared != keep:
                 ctx.fail('parallel_map changed the list it was given', dict(case, call_index=k), {'list_after_the_call': list(shared)}); break
+
+
+def ambient_probe(ctx):
+    """(i) two threads, each with an event loop of its own, mapping at the same time on the real thread pool: each gets its own map(f, xs);
+    (ii) a process in which a module named `ipykernel` happens to be imported (a library pulled it in) but no notebook is running: the
+    progress bar is presentation only — `parallel_map` still returns map(f, xs)"""
+    import sys
+    import time
+    import types
+    import taskchain.utils.threading as th
+    import taskchain.utils.iter as it
+    for k in range(ctx.n(3, 12)):
+        rng = ctx.rng('ambient', k)
+        xs = [rng.randint(-20, 20) for _ in range(rng.choice([6, 11, 25]))]
+        box = {}
+        started = threading.Event()
+
+        def caller(tag, f, which):
+            asyncio.set_event_loop(asyncio.new_event_loop())
+            try:
+                box[tag] = {'ok': list((th.parallel_map if which == 'new' else it.parallel_map)(f, list(xs), threads=3))}
+            except Exception as e:      # noqa
+                box[tag] = {'error': f'{type(e).__name__}: {e}'[:120]}
+            finally:
+                asyncio.get_event_loop().close()
+
+        def slow(x):
+            started.set(); time.sleep(0.01); return x * x
+
+        def quick(x):
+            return x + 1
+        which = rng.choice(['new', 'new', 'old'])
+        ta = threading.Thread(target=caller, args=('A', slow, which)); tb = threading.Thread(target=caller, args=('B', quick, which))
+        ta.start(); started.wait(5); tb.start(); ta.join(60); tb.join(60)
+        case = {'probe': 'two threads mapping at the same time', 'xs': xs, 'which': which}
+        ctx.case(case, nontrivial=True); ctx.count('ambient:two-threads')
+        if box.get('A') != {'ok': [x * x for x in xs]} or box.get('B') != {'ok': [x + 1 for x in xs]}:
+            ctx.fail('parallel_map(f, xs) != [f(x) for x in xs] when two threads map at the same time', case, box)
+    fake = 'ipykernel' not in sys.modules
+    if fake:
+        sys.modules['ipykernel'] = types.ModuleType('ipykernel')
+    try:
+        for which in ('old', 'new'):
+            xs = list(range(7))
+            case = {'probe': 'ipykernel imported, no notebook', 'which': which}
+            ctx.case(case); ctx.count('ambient:ipykernel-imported')
+            box = {}
+
+            def call():
+                try:
+                    box['out'] = {'ok': list((th.parallel_map if which == 'new' else it.parallel_map)(lambda x: 2 * x, list(xs), threads=2))}
+                except Exception as e:      # noqa
+                    box['out'] = {'error': f'{type(e).__name__}: {e}'[:120]}
+            import contextlib, gc, io
+            with contextlib.redirect_stderr(io.StringIO()):
+                _with_alarm(call, 30)
+                gc.collect()            # (a half-built progress bar complains when it is collected: here, not at interpreter exit)
+            if box.get('out') != {'ok': [2 * x for x in xs]}:
+                ctx.fail('parallel_map(f, xs) != [f(x) for x in xs] in a process that has imported ipykernel', case, box.get('out'))
+    finally:
+        if fake:
+            sys.modules.pop('ipykernel', None)
 
 
 def search(ctx, divergences):
